@@ -603,9 +603,16 @@ Definition node_remove_ns (fl : flags) (hint : list str) (n : str) (name : str) 
   remove_ns_with_cps_and_links s.
 
 (* NetworkService.peer (network_service.py:408): both handles are fresh *)
-Definition ns_peer (sub : bool) (a b : str) : M unit :=
+Definition ns_peer (fl : flags) (sub : bool) (a b : str) : M unit :=
   na <- props a ;; an <- name_prop na ;;
   nb <- props b ;; bn <- name_prop nb ;;
+  (* proposed C07-7: not with itself (the second handle's cached interface list would not see the first port), and the
+     derived link name must be free *)
+  (if fl_peer_checks fl then
+     guard (negb (str_eqb a b)) ETopology ;;;
+     u <- check_node_unique KLink (an ++ dash ++ bn ++ S "-link") ;;
+     guard u ETopology
+   else ret tt) ;;;
   ca <- fresh_ns_cache a ;;
   cb <- fresh_ns_cache b ;;
   ia <- ns_add_interface sub a ca (an ++ dash ++ bn) None sServicePort false ;;
@@ -790,7 +797,7 @@ Definition run_op (sub : bool) (fl : flags) (hint : list str) (o : op) : M unit 
   | ORemoveLink name => t_remove_link fl name
   | OConnect s i => need KNS s ;;; need KCP i ;;; connect_interface fl sub s i
   | ODisconnect s i => need KNS s ;;; need KCP i ;;; disconnect_interface i
-  | OPeer a b => need KNS a ;;; need KNS b ;;; ns_peer sub a b
+  | OPeer a b => need KNS a ;;; need KNS b ;;; ns_peer fl sub a b
   | OUnpeer a b => need KNS a ;;; need KNS b ;;; ns_unpeer a b
   | OAddSub i name cid v => need KCP i ;;; iface_add_child sub i name cid v
   | ORemoveSub i name => need KCP i ;;; iface_remove_child i name
